@@ -284,6 +284,67 @@ pub fn run(g: &mut Global) {
         },
         &check,
     );
+    // the compared suffix steps placed right after every power-of-two input count 2^8 .. 2^16 (buffers that are
+    // compacted or re-synchronised at such counts must still forget)
+    let seedp = g.seed;
+    g.exhaustive(
+        "pow2_positions",
+        12 * 2 * 9 * 3,
+        &move |i| {
+            let j = (i % 3) as usize;
+            let r = i / 3;
+            let pw = [256usize, 512, 1024, 2048, 4096, 8192, 16_384, 32_768, 65_536][(r % 9) as usize];
+            let r = r / 9;
+            let n = [3usize, 14][(r % 2) as usize];
+            let kind = KINDS[(r / 2) as usize];
+            let w = kind.memory(n).unwrap();
+            let mut s = seedp ^ (i + 17).wrapping_mul(0x9E3779B97F4A7C15);
+            let sd = splitmix(&mut s);
+            // total inputs reach 2^k while the suffix is being compared: the prefix ends w + j inputs before 2^k
+            let plen = pw - w - j;
+            let mut g2 = crate::props::c13::Gen::new(sd ^ 0x77, 0, 85.18, 2 + n);
+            let suffix: Vec<RawBar> = (0..w + n + 8).map(|_| g2.bar()).collect();
+            Case { cfg: cfg_small(kind, n), scalar: i % 2 == 0, prefix: vec![], suffix, gen_prefix: Some((sd, plen, [0usize, 1, 3][(sd % 3) as usize], X(85.18))) }
+        },
+        &check,
+    );
+    // long strictly monotone ramps (with small noise that never reverses them) before the suffix, windows
+    // above 256 slots: every element of the window is a candidate extreme at once
+    g.exhaustive(
+        "monotone_prefix",
+        4 * 4 * 2 * 2,
+        &move |i| {
+            let up = i % 2 == 0;
+            let r = i / 2;
+            let bars_path = r % 2 == 0;
+            let r = r / 2;
+            let n = [257usize, 300, 513, 1025][(r % 4) as usize];
+            let kind = [Kind::Max, Kind::Min, Kind::FastStoch, Kind::Sma][(r / 4) as usize % 4];
+            let w = kind.memory(n).unwrap();
+            let mut s = seedp ^ (i + 29).wrapping_mul(0x9E3779B97F4A7C15);
+            let len = 2 * n + 100 + (splitmix(&mut s) % 200) as usize;
+            let slen = w + (i % 3) as usize;
+            // the ramp runs through prefix and suffix alike in 3 of 4 cases (the window the fresh twin sees is
+            // itself all candidates), else the suffix is an unrelated walk
+            let through = splitmix(&mut s) % 4 != 0;
+            let total = len + slen;
+            let mut all: Vec<RawBar> = (0..total)
+                .map(|t| {
+                    let u = unit(&mut s);
+                    let x = if up { 100.0 + t as f64 * 0.5 + 0.1 * u } else { 100.0 + (total - t) as f64 * 0.5 + 0.1 * u };
+                    RawBar { o: x, h: x + 0.2, l: x - 0.2, c: x + 0.1 * (u - 0.5), v: 10.0 }
+                })
+                .collect();
+            let mut suffix = all.split_off(len);
+            let prefix = all;
+            if !through {
+                let mut g2 = crate::props::c13::Gen::new(splitmix(&mut s), 0, 3.0, 7);
+                suffix = (0..slen).map(|_| g2.bar()).collect();
+            }
+            Case { cfg: cfg_small(kind, n), scalar: !bars_path, prefix, suffix, gen_prefix: None }
+        },
+        &check,
+    );
     // forgetting after a very long life: more than 2^16 (all O(1)-per-step kinds) and 2^24 (a few) inputs
     // before the common suffix
     let seed = g.seed;
